@@ -9,7 +9,7 @@ DOC_MODEL = True     # every generated document also runs through the composed C
 RULE = ('generated reference DAGs over 2-7 id-carrying sibling elements (rect / circle / ellipse / line / group containers), every '
         'relspec form (|h |H |v |V gaps, @loc with offsets, ~scalar, relative sizes wh="#id", surround / inside lists), the referenced '
         'element\'s geometry spelled both ways (wh vs width/height, r vs wh, relative vs absolute position); one DAG in seven built around sizes '
-        '(wh / width / height / r) read from longhand targets that carry a size delta and are themselves placed by x / y references; every sibling order for n <= 5 '
+        '(wh / width / height / r) read from longhand targets that carry a size delta and are themselves placed by x / y references; one DAG in twenty a chain of 15-18 longhand rects (over a hundred failed attempts when written backwards); every sibling order for n <= 5 '
         'and 40 random orders above; all orders must give identical geometry keyed by id (or all fail); documents with an unknown id, a '
         'reference cycle or a target without bounding box must fail in every order. non-trivial = distinct DAG with >= 1 reference')
 THEOREM_NOTES = ('Props/C10.v: retry_least, retry_order_independent (abstract loop over a monotone step), pass_only_shrinks (concrete pipeline model), '
@@ -28,6 +28,16 @@ def gen_dag(rng):
     # one DAG in seven is about sizes read from a target that cannot have a box before it is placed: targets spelled in
     # longhand (x / y references, width / height plus a delta), referrers that take their size from such a target
     sizey = rng.chance(0.15)
+    if rng.chance(0.05):
+        # a long chain in longhand (a target without numeric x / y has no box, so every early attempt fails and is retried):
+        # written backwards it needs one pass per element and more than a hundred failed attempts in all
+        n = rng.range(15, 18)
+        els = [('e0', 'rect', [('id', 'e0'), ('xy', '%s %s' % (fmt(dy(rng, -20, 40)), fmt(dy(rng, -20, 40)))), ('wh', '3 2')], [])]
+        for i in range(1, n):
+            t = 'e%d' % (i - 1)
+            els.append(('e%d' % i, 'rect', [('id', 'e%d' % i), ('x', '#%s%s' % (t, rng.choice(['~x2', '@tr', '@r 1']))), ('y', '#%s%s' % (t, rng.choice(['~y', '@b', '~cy']))),
+                                            ('width', fmt(dy(rng, 1, 9, 4))), ('height', fmt(dy(rng, 1, 9, 4)))], [t]))
+        return els, None
     for i in range(n):
         if sizey and i >= 1:
             eid = 'e%d' % i
